@@ -22,12 +22,14 @@ SPEC = {
                         "document-level normalisations (header split, complement links, grouping) are decided by oracle + correspondence"],
     },
     "C02": {
-        "LEAN": {"modules": ["GfaProofs.Bridge.Geometry", "GfaProofs.C02", "GfaProofs.C02Rename"], "support": ["GfaModel.Graph", "GfaModel.GraphObs", "GfaProofs.Lemmas.Graph", "GfaProofs.C09"],
+        "LEAN": {"modules": ["GfaProofs.Bridge.Geometry", "GfaProofs.Bridge.Connect", "GfaProofs.C02", "GfaProofs.C02Rename"], "support": ["GfaModel.Graph", "GfaModel.GraphObs", "GfaProofs.Lemmas.Graph", "GfaProofs.C09"],
                  "theorems": ["Gfa.C02.closed_reachable", "Gfa.C02.rename_closed", "Gfa.C02.renameIn_segRefs", "Gfa.C02.renameIn_itemRefs",
                               "Gfa.C02.closed_reachable_partial", "Gfa.C02.step_closed", "Gfa.C02.add_closed", "Gfa.C02.rm_closed",
                               "Gfa.C02.rmIdx_closed", "Gfa.C02.rm_no_zombie", "Gfa.C02.reference_resolves", "Gfa.C02.ensureRefs_grow",
                               "Gfa.C02.cascade_closed", "Gfa.C02.live_not_dependent", "Gfa.C09.nodup_reachable",
-                              "Gfa.Bridge.Geometry.refkey_table", "Gfa.Bridge.Geometry.linkKey_table", "Gfa.Bridge.Geometry.gapKey_table"]},
+                              "Gfa.Bridge.Geometry.refkey_table", "Gfa.Bridge.Geometry.linkKey_table", "Gfa.Bridge.Geometry.gapKey_table",
+                              "Gfa.Bridge.Connect.referenceFields_table", "Gfa.Bridge.Connect.dependentLines_table",
+                              "Gfa.Bridge.Connect.otherReferences_table", "Gfa.Bridge.Connect.gap_sets_link_paths"]},
         "ASSUMPTIONS": ["closure is proved for every history of add_line / rm / rename (closed_reachable); a rename is given an identifier in use "
                         "(not empty, not '*') and a new identifier that is not empty, not '*' and free of ',' and ' ' (okOp) - other new identifiers "
                         "are refused by the library's field validation",
@@ -44,8 +46,9 @@ SPEC = {
                         "by the oracle (library vs itself on all n! orders) and the correspondence (model vs library on sampled orders)"],
     },
     "C05": {
-        "LEAN": {"modules": ["GfaProofs.C05", "GfaProofs.C05Rename"], "support": ["GfaModel.Graph", "GfaProofs.C02", "GfaProofs.C02Rename"],
-                 "theorems": ["Gfa.C05.rename_frame", "Gfa.C05.rename_mentions", "Gfa.C05.rename_carrier", "Gfa.C05.renameIn_frame",
+        "LEAN": {"modules": ["GfaProofs.C05", "GfaProofs.C05Rename", "GfaProofs.Bridge.Connect"], "support": ["GfaModel.Graph", "GfaProofs.C02", "GfaProofs.C02Rename"],
+                 "theorems": ["Gfa.Bridge.Connect.dependentLines_table", "Gfa.Bridge.Connect.otherReferences_table", "Gfa.Bridge.Connect.gap_sets_link_paths",
+                              "Gfa.C05.rename_frame", "Gfa.C05.rename_mentions", "Gfa.C05.rename_carrier", "Gfa.C05.renameIn_frame",
                               "Gfa.C05.cascade_sound", "Gfa.C05.cascade_complete", "Gfa.C05.rm_lines", "Gfa.C05.rm_kept_unchanged",
                               "Gfa.C05.rm_set_rest", "Gfa.C05.rm_name_gone", "Gfa.C02.rmIdx_closed", "Gfa.C02.dropItems_itemRefs",
                               "Gfa.C09.rename_nodup", "Gfa.G.renameIn_name"]},
@@ -81,11 +84,17 @@ SPEC = {
                         "segments, paths/groups, tags and whole-graph conversion are decided by the text-level oracle"],
     },
     "C08": {
-        "LEAN": {"modules": ["GfaProofs.C08"], "support": ["GfaModel.Header", "GfaModel.Graph"],
-                 "theorems": ["Gfa.C08.merge_atomic", "Gfa.C08.mergeTagByTag_ok", "Gfa.C08.tagByTag_not_atomic",
+        "LEAN": {"modules": ["GfaProofs.C08", "GfaProofs.Bridge.Connect", "GfaProofs.C08Connect"],
+                 "support": ["GfaModel.Header", "GfaModel.Graph", "GfaModel.Connect"],
+                 "theorems": ["Gfa.C08.precheck_sufficient", "Gfa.C08.precheck_necessary", "Gfa.C08.ensureSeg_ok", "Gfa.C08.ensureLinks_ok",
+                              "Gfa.Bridge.Connect.segRefTypes_table", "Gfa.Bridge.Connect.precheck_covers",
+                              "Gfa.C08.merge_atomic", "Gfa.C08.mergeTagByTag_ok", "Gfa.C08.tagByTag_not_atomic",
                               "Gfa.C08.fail_keeps_state", "Gfa.C08.run_skips_failures"]},
         "ASSUMPTIONS": ["the model Gfa is a pure state machine: a failing operation returns the old state by construction; that the "
-                        "implementation does the same is decided by the correspondence (full observation after every failing call) and the oracle"],
+                        "implementation does the same is decided by the correspondence (full observation after every failing call) and the oracle",
+                        "proved about the mechanism gfapy relies on: once Connection._check_segment_references (the model's precheck, record-type list "
+                        "bridged from the source) has passed, creating the placeholders a line needs cannot fail (precheck_sufficient), and it refuses "
+                        "only references for which no placeholder can be made (precheck_necessary)"],
     },
     "C09": {
         "LEAN": {"modules": ["GfaProofs.C09"], "support": ["GfaModel.Graph", "GfaProofs.Lemmas.Graph"],
